@@ -356,7 +356,16 @@ func (it *interp) stmt(s ast.Stmt, sc *scope) ctrl {
 		return it.block(x, sc)
 	case *ast.IfStmt:
 		if x.Init != nil {
-			fail("if with init")
+			// the init statement runs in a scope of its own that encloses the condition and both arms; only
+			// plain assignments are modelled (a := here would meet the compiler's recorded scoping findings)
+			as, ok := x.Init.(*ast.AssignStmt)
+			if !ok || as.Tok != token.ASSIGN {
+				fail("if with an init that is not a plain assignment")
+			}
+			sc = &scope{vars: map[string]*cell{}, outer: sc}
+			if c := it.stmt(x.Init, sc); c != cNone {
+				return c
+			}
 		}
 		if it.cond(x.Cond, sc) {
 			return it.block(x.Body, sc)
@@ -954,6 +963,10 @@ func (w *factWalker) stmt(s ast.Stmt) {
 			w.lab("if-else")
 		} else {
 			w.lab("if")
+		}
+		if x.Init != nil {
+			w.lab("if-init")
+			w.stmt(x.Init)
 		}
 		w.exprFacts(x.Cond)
 		w.pushCtx()
